@@ -392,7 +392,7 @@ def check_scalar(case, rec):
 
 @st.composite
 def strat_scalar(draw, tier):
-    band = draw(gen.st_band())
+    band = draw(gen.st_band(wide=False))
     p_lo = band['fs'] / band['f_range'][0]
     n = draw(st.integers(int(12 * p_lo), int(20 * p_lo)))
     f_lo, f_hi = band['f_range']
